@@ -160,10 +160,14 @@ class SqlParseLineageAnalyzer(LineageAnalyzer):
                     ]
                 for c in comparisons:
                     # without a target table identified, there's no column lineage to build
-                    if holder.write and isinstance(right := c.right, Identifier):
+                    if (
+                        holder.write
+                        and isinstance(right := c.right, Identifier)
+                        and isinstance(left := c.left, Identifier)
+                    ):
                         src_col = Column(right.get_real_name() or right.value)
                         src_col.parent = direct_source
-                        tgt_col = Column(c.left.get_real_name() or c.left.value)
+                        tgt_col = Column(left.get_real_name() or left.value)
                         tgt_col.parent = list(holder.write)[0]
                         holder.add_column_lineage(src_col, tgt_col)
             elif insert_flag:
@@ -176,7 +180,13 @@ class SqlParseLineageAnalyzer(LineageAnalyzer):
                         identifiers.extend(t.get_identifiers())
                     for identifier in identifiers:
                         tgt_col = Column(
-                            identifier.get_real_name() or identifier.value
+                            # a constant in the column list is not an Identifier, keep its text
+                            (
+                                identifier.get_real_name()
+                                if isinstance(identifier, Identifier)
+                                else None
+                            )
+                            or identifier.value
                         )
                         tgt_col.parent = list(holder.write)[0]
                         insert_columns.append(tgt_col)
